@@ -102,11 +102,30 @@ def unquote(line):
     return line
 
 
-def run_mc(wd, module, constants, invariants, workers=4, timeout=1500, props=None, constraint=None):
+def run_apalache(wd, module, obligations, timeout=900):
+    """Stage A (unbounded part): discharge inductive-invariant obligations with Apalache.
+    obligations: list of {"init":..., "inv":..., "length":...}.  Returns stats; ToolError if one fails."""
+    shutil.copy(os.path.join(SPEC, module + ".tla"), os.path.join(wd, module + ".tla"))
+    done = []
+    t0 = time.time()
+    for i, ob in enumerate(obligations):
+        out = os.path.join(wd, "apalache-%s-%d.out" % (module, i))
+        cmd = ["apalache-mc", "check", "--init=" + ob["init"], "--inv=" + ob["inv"], "--length=%d" % ob["length"],
+               "--out-dir=" + os.path.join(wd, "apalache-out"), module + ".tla"]
+        p, dt = run(cmd, cwd=wd, timeout=timeout, out=out)
+        text = open(out, errors="replace").read()
+        if "The outcome is: NoError" not in text or "EXITCODE: OK" not in text:
+            raise ToolError("apalache %s %s: obligation not discharged\n%s" % (module, ob, text[-1500:]))
+        done.append(dict(ob, wall_s=round(dt, 1)))
+    shutil.rmtree(os.path.join(wd, "apalache-out"), ignore_errors=True)
+    return {"module": module, "tool": "apalache-mc", "obligations": done, "wall_s": round(time.time() - t0, 1)}
+
+
+def run_mc(wd, module, constants, invariants, workers=4, timeout=1500, props=None, constraint=None, specname="Spec"):
     """Stage A: model check spec/<module>.tla with the given constants; returns (cases, stats)."""
     cfg = os.path.join(wd, module + ".cfg")
     with open(cfg, "w") as f:
-        f.write("SPECIFICATION Spec\nCONSTANTS\n")
+        f.write("SPECIFICATION %s\nCONSTANTS\n" % specname)
         for k, v in constants.items():
             f.write("  %s = %s\n" % (k, v))
         if invariants:
@@ -282,8 +301,14 @@ def check(prop, tier, seed):
     mc_stats = []
     cases = []
     for m in spec["models"](tier):
+        if m.get("apalache"):
+            st = run_apalache(wd, m["module"], m["apalache"])
+            mc_stats.append(st)
+            log("   A %-10s apalache: %d obligations discharged (unbounded), %.1fs" % (m["module"], len(st["obligations"]), st["wall_s"]))
+            continue
         cs, st = run_mc(wd, m["module"], m["constants"], m["invariants"], workers=m.get("workers", 4),
-                        props=m.get("props"), constraint=m.get("constraint"), timeout=m.get("timeout", 1500))
+                        props=m.get("props"), constraint=m.get("constraint"), timeout=m.get("timeout", 1500),
+                        specname=m.get("spec", "Spec"))
         need = m.get("min_cases", 1)
         if len(cs) < need and not m.get("no_cases"):
             raise ToolError("model %s emitted %d cases (< %d): vacuous" % (m["module"], len(cs), need))
@@ -327,6 +352,8 @@ def check(prop, tier, seed):
     if not cases:
         raise ToolError("no cases")
     chunk = spec.get("chunk", 1500)
+    njobs = max(1, int(os.environ.get("VERIF_JOBS", "4")))
+    chunk = max(40, min(chunk, (len(cases) + njobs - 1) // njobs))   # at least njobs chunks when there is enough work
     judged_all = []
     tr_stats = []
     events = 0
@@ -334,13 +361,14 @@ def check(prop, tier, seed):
     skipped = 0
     case_by_key = {}
     nchunks = (len(cases) + chunk - 1) // chunk
-    for ci in range(nchunks):
+
+    def do_chunk(ci):
+        """Stages B and C for one chunk of cases (chunks are independent: own files, own TLC)."""
         part = cases[ci * chunk:(ci + 1) * chunk]
         cpath = os.path.join(wd, "cases-%03d.ndjson" % ci)
         tpath = os.path.join(wd, "trace-%03d.ndjson" % ci)
         write_lines(cpath, part)
-        binary = tvh
-        p, dt = run([binary, "run", cpath, tpath], cwd=wd, timeout=1800)
+        p, dt = run([tvh, "run", cpath, tpath], cwd=wd, timeout=1800)
         if p.returncode != 0:
             raise ToolError("tvh run failed: %s" % p.stdout.decode(errors="replace")[-3000:])
         if tvh_ic:
@@ -365,26 +393,44 @@ def check(prop, tier, seed):
             if p.returncode != 0:
                 raise ToolError("tvh (second process) run failed: %s" % p.stdout.decode(errors="replace")[-3000:])
             merge_ic(tpath, tpath2, tag="proc2", load_ev="load2", reverse=True)
+        n_ev = n_eng = n_skip = 0
         with open(tpath) as f:
             eng_case = False
             for line in f:
-                events += 1
+                n_ev += 1
                 if '"ev":"skip"' in line:
-                    skipped += 1
+                    n_skip += 1
                 elif line.endswith('"ev":"case"}\n'):
                     eng_case = '"eng":true' in line
                 elif eng_case and ('"ev":"match"' in line or '"ev":"tri"' in line):
-                    eng_events += 1
+                    n_eng += 1
         # C. validate
         judged, st = run_trace(wd, tpath, "trace-%03d" % ci)
         tcs = trace_cases(tpath)
         for j in judged:
             j["case"] = tcs.get(j.get("cl"))
             j["chunk"] = ci
-        judged_all += judged
-        tr_stats.append(st)
         log("   B/C chunk %d/%d: %d cases, %d states validated, %d judged  (run %.1fs, tlc %.1fs)" %
             (ci + 1, nchunks, len(part), st["states"], len(judged), dt, st["wall_s"]))
+        return judged, st, n_ev, n_eng, n_skip
+
+    # chunks run side by side (each validation is one single-worker TLC); results are taken in chunk order
+    jobs = max(1, min(njobs, nchunks))
+    import concurrent.futures
+    with concurrent.futures.ThreadPoolExecutor(max_workers=jobs) as pool:
+        futs = [pool.submit(do_chunk, ci) for ci in range(nchunks)]
+        try:
+            for fu in futs:
+                judged, st, n_ev, n_eng, n_skip = fu.result()
+                judged_all += judged
+                tr_stats.append(st)
+                events += n_ev
+                eng_events += n_eng
+                skipped += n_skip
+        except BaseException:
+            for fu in futs:
+                fu.cancel()
+            raise
 
     # classify
     known = load_known()
